@@ -223,6 +223,32 @@ func runC25(c *Ctx) []Obligation {
 		c.whoMayCall(P, "slash.callers", "(x/nodes/keeper.Keeper).slash", []string{kN + `(handleDoubleSign|handleValidatorSignature)`}, "fractional slashes only for double-sign evidence and downtime"),
 		c.whoMayCall(P, "simpleSlash.callers", "(x/nodes/keeper.Keeper).simpleSlash", []string{kN + `BurnForChallenge`}, "absolute slashes only from challenge/replay burns"),
 	)
+	// the jail period is one stored timestamp, read only by the unjail validation; nothing but the jailing
+	// branch (and the zero value a new record starts with) may write it
+	out = append(out,
+		c.fieldTable(P, "jailed-until.writers", "x/nodes/types", "ValidatorSigningInfo", "JailedUntil", false,
+			[]string{`\(x/nodes/keeper\.Keeper\)\.(handleValidatorSignature|StakeValidator)`, `x/nodes\.InitGenesis`, `\(\*x/nodes/types\.ValidatorSigningInfo\)\.(Unmarshal|XXX_\w+)`, `x/nodes/types\.(\w*SigningInfo\w*)`},
+			"the end of the jail period is set when a node is jailed for downtime and starts at the epoch for a new record; the window roll-over and the counters' reset leave it alone"),
+	)
+	out = append(out, c.Rows([]Row{
+		{Prop: P, ID: "downtime.sets-jail-period-from-block-time", Fn: fnValSig,
+			Target: StoreTo(`JailedUntil$`).ExceptVal(`^\(time\.Time\)\.Add\(invoke types\.Ctx\.BlockHeader\(ctx\)\.Time, downtimeJailDuration\)$`),
+			Why:    "the jail period runs from this block's time for the configured duration"},
+		{Prop: P, ID: "downtime.params-from-store", Fn: "x/nodes/keeper.BeginBlocker",
+			Target: CallTo(`^` + kN + `handleValidatorSignature\(`).Except(`^` + kN + `handleValidatorSignature\(k, ctx, (.*)\.Validator\.Address, (.*)\.Validator\.Power, (.*)\.SignedLastBlock, ` + kN + `SignedBlocksWindow\(k, ctx\), ` + kN + `MinBlocksSignedPerWindow\(k, ctx\), ` + kN + `DowntimeJailDuration\(k, ctx\), ` + kN + `SlashFractionDowntime\(k, ctx\)\)$`),
+			Why:    "the window, the threshold, the jail duration and the slash fraction handed to the downtime accounting are the governed parameters, each in its own slot"},
+		{Prop: P, ID: "downtime.jail-period-set-after-reset", Fn: fnValSig,
+			From:   `^` + kN + `JailValidator\(k, ctx, addr\)$`,
+			Target: CallTo(`ResetSigningInfo\(`), Why: "the counters' reset happens before the jail period is written, never after"},
+		{Prop: P, ID: "downtime.jailed-node-gets-jail-period", Fn: fnValSig,
+			From:    `^` + kN + `JailValidator\(k, ctx, addr\)$`,
+			Barrier: []string{`store:.*JailedUntil = `}, Target: TargetAnyReturn(),
+			Why: "every path from the jailing to the return writes the jail period"},
+		{Prop: P, ID: "downtime.jail-period-is-stored", Fn: fnValSig,
+			From:    `store:.*JailedUntil = `,
+			Barrier: []string{`^` + kN + `SetValidatorSigningInfo\(k, ctx, addr, `}, Target: TargetAnyReturn(),
+			Why: "the record carrying the jail period is written back"},
+	})...)
 	// downtime is judged at the start of every block for every vote of the last commit
 	out = append(out, c.hookRowsBegin(P)...)
 	out = append(out, c.Rows([]Row{
